@@ -210,6 +210,8 @@ func (w *C04World) Exec(op map[string]interface{}) (obs map[string]interface{}) 
 	case "reopen":
 		w.Reopen()
 		return map[string]interface{}{"r": "reopen"}
+	case "weak":
+		return map[string]interface{}{"weak": c04Weak(w.Dump())}
 	case "crash":
 		k := 0
 		switch x := op["k"].(type) {
@@ -386,6 +388,13 @@ func C04Gen(r *Run) {
 				}
 				o := emit(c04Crash(k, t))
 				emit(c03ObserveWide)
+				// what the killed call left behind must stay invisible: re-create the graphs the
+				// history and the call name, then ask for the weak invariant of the whole store
+				for _, gname := range []string{"g1", "g2", "g3"} {
+					emit(map[string]interface{}{"op": "addGraph", "g": gname})
+				}
+				emit(map[string]interface{}{"op": "weak"})
+				emit(c03ObserveWide)
 				if r.Tier == "thorough" || len(hist) <= 2 {
 					// the restarted server keeps working: one more accepted write and a look at it
 					emit(map[string]interface{}{"op": "addGraph", "g": "g1"})
@@ -444,6 +453,8 @@ func C04Gen(r *Run) {
 				}
 				o := emit(c04Crash(k, t))
 				emit(c03ObserveWide)
+				emit(map[string]interface{}{"op": "addGraph", "g": "g1"})
+				emit(map[string]interface{}{"op": "weak"})
 				r.Count("crash_cases")
 				r.Count("crash_hub:" + opKind(t))
 				if k > 0 {
